@@ -79,8 +79,17 @@ type vScenarioC12 struct {
 	MaxPark    time.Duration
 	Vis        []time.Duration // listing visibility delay of the n-th saved lock file (others' List)
 	Ghost      []time.Duration // how long the n-th lock file stays in others' listings after removal
+	Script     []vStepC12      // directed schedule executed first (regression probes only; nil for drawn scenarios)
 	Lazy       []int           // per process: percentage of scheduling steps at which its parked operations are passed over
 	Choices    []int
+}
+
+// vStepC12 is one step of a directed schedule: let virtual time pass, or wait until
+// process Proc has an operation of kind Kind parked and release it.
+type vStepC12 struct {
+	Advance time.Duration
+	Proc    int
+	Kind    string
 }
 
 var (
@@ -744,9 +753,40 @@ func (w *vWorldC12) abort(why string) {
 	}
 }
 
+// runScript executes the directed part of a schedule.
+func (w *vWorldC12) runScript(nprocs int) {
+	for _, st := range w.sc.Script {
+		if st.Advance > 0 {
+			time.Sleep(st.Advance)
+			continue
+		}
+		for {
+			synctest.Wait()
+			w.mu.Lock()
+			var found *vOpC12
+			for _, op := range w.sortedParked() {
+				if op.view.proc == st.Proc && op.kind == st.Kind {
+					found = op
+					break
+				}
+			}
+			stop := w.violation != "" || w.done == nprocs
+			if found != nil && !stop {
+				w.releaseOp(found)
+			}
+			w.mu.Unlock()
+			if found != nil || stop {
+				break
+			}
+			<-w.wake // virtual time advances until something arrives
+		}
+	}
+}
+
 func (w *vWorldC12) schedule(nprocs int) {
 	const maxSteps = 20000
 	step := 0
+	w.runScript(nprocs)
 	for {
 		synctest.Wait()
 		w.mu.Lock()
@@ -902,4 +942,57 @@ func TestVerifC12LockExclusion(t *testing.T) {
 	if nInter > 0 {
 		st.Note("mean_max_ops_of_other_acquisition_inside_window", float64(sumInter)/float64(nInter))
 	}
+}
+
+// TestVerifC12RefreshListingGapProbe is the fixed regression probe for the listed finding
+// C12:refresh-listing-gap (directed schedule, no drawn choices): process 0 holds an
+// exclusive lock and refreshes it at +5m0.2s and +10m0.2s; each replacement lock file
+// becomes visible in the listings of other processes 180 ms after it was saved, the
+// removal of the old file at once. Process 1 requests an exclusive lock: its first
+// check lists at +5m0.25s, its create stalls for just under 5 minutes, its re-check lists
+// at +10m0.2s right after the second refresh. If both listings show no lock, two
+// exclusive locks coexist.
+func TestVerifC12RefreshListingGapProbe(t *testing.T) {
+	baseRepoC12(t)
+	st := verifkit.Begin(t, "C12")
+	ms := time.Millisecond
+	sc := vScenarioC12{
+		Procs: [][]vEpisodeC12{
+			{{Kind: 0, Excl: true, Hold: 11 * time.Minute, End: 0}},
+			{{Pre: 5*time.Minute + 250*ms, Kind: 0, Excl: true, Hold: time.Second, End: 0}},
+		},
+		CrashAt: []int{0, 0}, CrashAfter: []bool{false, false},
+		MaxPark: 7 * time.Minute,
+		Vis:     []time.Duration{0, 180 * ms, 0, 180 * ms},
+		Ghost:   []time.Duration{0},
+		Lazy:    []int{0, 0},
+		Choices: []int{0},
+		Script: []vStepC12{
+			{Proc: 0, Kind: "list"}, {Proc: 0, Kind: "save"}, {Proc: 0, Kind: "list"}, // process 0 acquires (+0.2s)
+			{Proc: 0, Kind: "save"}, {Proc: 0, Kind: "remove"}, // its refresh at +5m0.2s
+			{Proc: 1, Kind: "list"},                            // first check of process 1 at +5m0.25s
+			{Advance: 4*time.Minute + 59*time.Second + 750*ms}, // its create is stalled until +10m0s
+			{Proc: 1, Kind: "save"},                            // ... re-check arrives at +10m0.2s
+			{Proc: 0, Kind: "save"}, {Proc: 0, Kind: "remove"}, // refresh of process 0 at +10m0.2s
+			{Proc: 1, Kind: "list"}, // re-check of process 1
+		},
+	}
+	w := runScenarioC12(t, &sc)
+	cls := "probe:refresh-listing-gap:no-violation"
+	if w.violation != "" {
+		cls = "probe:refresh-listing-gap:violation"
+	}
+	st.Case(strings.Join(w.sig, " "), cls)
+	st.Evals(w.nExecuted)
+	if w.aborted && w.violation == "" {
+		t.Fatalf("harness: probe aborted\n%s", strings.Join(w.trace, "\n"))
+	}
+	if w.violation == "" {
+		return
+	}
+	if w.shape == "refresh-listing-gap" && st.Known("C12:refresh-listing-gap") {
+		st.Class("known:refresh-listing-gap")
+		return
+	}
+	t.Fatalf("C12 violated (shape %q): %s\ntrace:\n%s", w.shape, w.violation, strings.Join(w.trace, "\n"))
 }
